@@ -1,4 +1,5 @@
 CONSTANTS
+  Logs = FALSE
   RecordHist = TRUE
   MaxInt = 0
   AllowDie = TRUE
